@@ -373,6 +373,12 @@ class Benign:
         return cls._cache[key]
 
 
+def _lit(skeleton):
+    """string and number literals are one token class: a numeric default may be written as a number (CPython's AST has
+    one Constant node for both); what matters is that spec text stays a literal"""
+    return [("LIT",) if t[0] in ("STR", "NUM") else t for t in skeleton]
+
+
 def judge(site, n, text, frags):
     """-> (holds, reason).  `text`/`frags` concrete (str) or symbolic (SymStr); forks through the lexer when symbolic."""
     if isinstance(frags, Raised) or frags is None:
@@ -387,7 +393,7 @@ def judge(site, n, text, frags):
         L = pylex.lex_text(f)
         if not L.ok:
             return False, "does not lex: %s" % L.err
-        if L.skeleton != skel:
+        if _lit(L.skeleton) != _lit(skel):
             return False, "token skeleton differs from the benign rendering (%d vs %d tokens)" % (len(L.skeleton), len(skel))
         for k in pos:
             v = L.strings[k][2]
